@@ -283,7 +283,7 @@ private:
 
   bool is_single_value() const;
   uint8_t get_preamble_longs() const;
-  void merge(vector_centroid& buffer, W weight);
+  void merge(vector_centroid& buffer, uint64_t weight);
 
   // for deserialize
   tdigest(bool reverse_merge, uint16_t k, T min, T max, vector_centroid&& centroids, uint64_t total_weight_, vector_t&& buffer);
